@@ -38,6 +38,41 @@ Definition despace (s : str) : str := filter (fun c => negb (c =? 32)%N) s.
 Definition token_preserving (p : program) (toks : list token) : bool :=
   str_eqb (despace (wops_text (write_program p))) (despace (toks_text toks)).
 
+(* ---- canonical spelling of the fixed tokens (hypothesis of C01) ----
+   The grammar checks keyword and punctuation tokens by TYPE only, while the printer
+   writes their fixed text; so C01 is about token lists whose keyword / operator /
+   punctuation tokens are spelled as the lexer spells them.  Keywords: the generated
+   table [token_keywords] (token.keywords in the Go source).  Operators and punctuation
+   have no table in the Go source (they are the cases of the switch in
+   lexer.baseNextToken, Lexer.base_next_token), hence this hand-written one. *)
+Definition punct_spelling : list (Z * str) := [
+  (T_ASSIGN, [61]%N); (T_PLUS_ASSIGN, [43; 61]%N); (T_MINUS_ASSIGN, [45; 61]%N);
+  (T_PLUS, [43]%N); (T_MINUS, [45]%N); (T_MULTIPLY, [42]%N); (T_DIVIDE, [47]%N); (T_MODULO, [37]%N);
+  (T_EQ, [61; 61]%N); (T_NOT_EQ, [33; 61]%N); (T_LT, [60]%N); (T_GT, [62]%N);
+  (T_LTE, [60; 61]%N); (T_GTE, [62; 61]%N); (T_AND, [38; 38]%N); (T_OR, [124; 124]%N);
+  (T_NOT, [33]%N); (T_INCREMENT, [43; 43]%N); (T_DECREMENT, [45; 45]%N);
+  (T_COMMA, [44]%N); (T_SEMICOLON, [59]%N); (T_COLON, [58]%N); (T_DOT, [46]%N);
+  (T_LPAREN, [40]%N); (T_RPAREN, [41]%N); (T_LBRACE, [123]%N); (T_RBRACE, [125]%N);
+  (T_LBRACKET, [91]%N); (T_RBRACKET, [93]%N)
+].
+
+Definition token_spelling (ty : Z) : option str :=
+  match find (fun kv => snd kv =? ty) token_keywords with
+  | Some kv => Some (fst kv)
+  | None =>
+      match find (fun kv => fst kv =? ty) punct_spelling with
+      | Some kv => Some (snd kv)
+      | None => None
+      end
+  end.
+
+(* identifiers, numbers, strings, EOF (and ILLEGAL) have no fixed spelling *)
+Definition tok_canonical (t : token) : bool :=
+  match token_spelling (t_type t) with
+  | Some s => str_eqb (t_lit t) s
+  | None => true
+  end.
+
 (* ---- from the operation list to the code, in every configuration ---- *)
 
 (* bytes the code writer adds on its own account: blanks, line breaks, indentation,
